@@ -20,7 +20,8 @@ EXTENDS Integers, Sequences, FiniteSets, TLC
 CONSTANTS MaxBuilders,     \* builders per session
           MaxAtt,          \* proofs per attempt
           RejectNoSk, RejectR0,
-          CtxVals, NonceVals,   \* values context / nonce range over (1 = the value session 1 uses; 0 = zero, a value implementations like to treat specially)
+          CtxVals, NonceVals,   \* values context / nonce range over (1 = the value session 1 uses; 0 = zero, a value implementations like to treat specially;
+                                \* 3 = the NEGATION of value 1: same magnitude, other sign - what a sign-blind encoder would conflate)
           Reduced          \* quick tier: the two sessions differ in exactly one tuple component; first label is "a" wlog
 
 Keys == {1, 2}
